@@ -57,14 +57,14 @@ CHECKS["C08"] = dict(category=MC, design_ref="5/C08",
     text="The real five-stage simulation with hazard detection off is compared on bounded symbolic programs with an executable reference of an interlock-free pipeline (every instruction reads its sources in its last decode cycle and sees exactly the writes whose write-back cycle is <= that cycle; ecall drains; control in MEM): registers, memory, output, exit code, retire order and cycles, no decode-stage stall; nop-padded programs agree with single-cycle mode.",
     note="Trusted: refs/pipe_ref.NoInterlockMachine + refs/riscv_ref. Bounds as C02 (quick sample excludes the heaviest L=3 skeletons).")
 CHECKS["C09"] = dict(category=MC, design_ref="5/C09",
-    text="Same inductive cache step as C03 with the accounting claims: hit verdict = residency in the pre-state, accesses/hits/last-hit flag/miss penalty (symbolic) for counted accesses, all four unchanged for uncounted reads and direct writes, and the post-state (which way holds the block, other ways/sets untouched, victim by the configured policy, LRU/PLRU update, no allocation on write-through write misses) equals a reference set-associative cache; plus 3-operation histories from reset.",
-    note="Trusted: reference cache formulas in checks/cachestep.py. Rejected accesses outside the claim. Program clause (same counters in both modes) via C11-style harness is not yet included for the data cache.")
+    text="Same inductive cache step as C03 with the accounting claims: hit verdict = residency in the pre-state, accesses/hits/last-hit flag/miss penalty (symbolic) for counted accesses, all four unchanged for uncounted reads and direct writes, and the post-state (which way holds the block, other ways/sets untouched, victim by the configured policy, LRU/PLRU update, no allocation on write-through write misses) equals a reference set-associative cache; plus 3-operation histories from reset and the program-level clause.",
+    note="Trusted: reference cache formulas in checks/cachestep.py. Rejected accesses outside the claim. Program clause: bounded symbolic programs (all 8 load/store classes alone, L<=2 skeletons with memory instructions) run uncached, cached single-cycle and cached five-stage: one access per executed load/store, identical counters in both modes, cycles advance by 1 + penalty x misses per step; every cache gets exactly its configured geometry/policy/penalty (config harness).")
 CHECKS["C10"] = dict(category=MC, design_ref="5/C10",
-    text="One inductive step of the real LRU / PLRU objects from an arbitrary policy state: LRU order list = any permutation sorted by ghost last-access timestamps (uninterpreted), access() keeps it sorted with the accessed block newest, victim has the minimal timestamp, get_repr() is the age rank; PLRU with arbitrary bits: victim follows the tree, access points every bit on the path away, off-path bits unchanged; access is idempotent.",
+    text="One inductive step of the real LRU / PLRU objects from an arbitrary policy state: LRU order list = any permutation sorted by ghost last-access timestamps (uninterpreted), access() keeps it sorted with the accessed block newest, victim has the minimal timestamp, get_repr() is the age rank; PLRU with arbitrary bits: victim follows the tree, access points every bit on the path away, off-path bits unchanged; access is idempotent. CrossHair 0.0.110 re-checks 12 PEP316 postconditions on the real classes (associativity <= 4) as an independent engine.",
     note="Bounds: LRU n<=6 (access) / <=4 (repr) quick, 8/6 thorough; PLRU n in {1,2,4,8} (+16 thorough).")
 CHECKS["C11"] = dict(category=MC, design_ref="5/C11",
-    text="One read_instruction() of the real InstructionMemoryCacheSystem from an arbitrary invariant state (valid bits, tags, replacement state, counters, penalty symbolic): returns the instruction at the address, counters/penalty/placement/victim/policy update equal the reference, invariant preserved; reset() from an arbitrary state equals a fresh system; bounded symbolic programs in both modes with an instruction cache: results unchanged, accesses = fetches (one per executed instruction in single-cycle mode), hits = trace-driven reference cache, every step advances cycles by 1 + penalty x misses.",
-    note="Bounds: 5-instruction program for the step harness, geometries <= (1,1,2); programs L<=2 sample + 4 loop skeletons.")
+    text="One read_instruction() of the real InstructionMemoryCacheSystem from an arbitrary invariant state (valid bits, tags, replacement state, counters, penalty symbolic): returns the instruction at the address, counters/penalty/placement/victim/policy update equal the reference, invariant preserved; reset() from an arbitrary state equals a fresh system; bounded symbolic programs in both modes with an instruction cache: results unchanged, accesses = fetches (one per executed instruction in single-cycle mode), hits = trace-driven reference cache, every step advances cycles by 1 + penalty x misses; load A, run, load B leaves the instruction cache as after a fresh load of B; each cache is built with its own configured geometry/policy/penalty.",
+    note="Bounds: 5-instruction program for the step harness, geometries <= (1,1,2); programs L<=2 sample + 4 loop skeletons; reload/config clauses on enumerated concrete configurations.")
 CHECKS["C12"] = dict(category=MC, design_ref="5/C12",
     text="Same inductive cache step as C03 with the backing-memory claims: write-through - backing memory equals the logical contents at every address and every resident word equals its backing word; write-back - backing memory differs from the logical contents only where the block is resident and the logical contents are exactly the flat update across every eviction path (no written value lost); plus 3-operation histories from reset.",
     note="Trusted: as C03.")
@@ -78,7 +78,7 @@ CHECKS["C15"] = dict(category=MC, design_ref="5/C15",
     text="For every int() conversion found by an AST scan of the parsers, z3's regex theory compares (no length bound) the literal language the live pyparsing grammar delivers with CPython's accepted literal language; witnesses outside it (and the 4300-digit limit) are pushed through the real load_program in every feeding line shape and must yield ParserException with an existing line. 80+ lexically / structurally faulty texts per assembler may only raise ParserException (valid line) or the size errors. Run time: every faulting class in both modes reports InstructionExecutionException with the address and printed form (symbolic operands).",
     note="Trusted: grammar-to-regex translation, CPython literal grammar. Arbitrary token soups and termination are outside.")
 CHECKS["C16"] = dict(category=MC, design_ref="5/C16",
-    text="After the steps of bounded symbolic programs (both modes, with/without data and instruction caches) and TOY programs every public zero-argument get_*/is_*/has_* method (introspection) is called twice: z3 proves the deep snapshot (registers, memory, caches, replacement state, counters, latches) unchanged and the second result equal to the first.",
+    text="After the steps of bounded symbolic programs (both modes, with/without data and instruction caches) and TOY programs every public zero-argument get_*/is_*/has_* method (introspection) is called twice: z3 proves the deep snapshot (registers, memory, caches, replacement state, counters, latches) unchanged and the second result equal to the first, and that no process-wide shared table of the repository (module/class-level lists, dicts, sets) differs from its state right after import.",
     note="Bounds: pinned register numbers (dependency chain), initial register values < 2^31, states: initial, first, every 3rd, final; memory-table getter on a small real-dict memory.")
 CHECKS["C17"] = dict(category=MC, design_ref="5/C17",
     text="get_n_bit_representations (n=12,16,32) on a symbolic number in [-2^40,2^40]: the output strings carry one symbolic digit per character, so the repository's grouping code acts on them; z3 proves separator positions and that every binary/hex character is the corresponding bit/nibble of value mod 2^n, and the decimal strings are the unsigned / two's-complement readings. Register table with symbolic values at enumerated positions; data-memory tables for every subset of <=3 written bytes of 9 candidate addresses (rows = written words, ascending, true addresses); TOY tables.",
